@@ -109,3 +109,7 @@ Qed.
 Corollary command_quiescent name lim l : starts name l = dones name l ->
   c_total (get_cmd name (cmds (srun lim l))) = c_success (get_cmd name (cmds (srun lim l))) + c_error (get_cmd name (cmds (srun lim l))).
 Proof. intros H. destruct (command_counters name lim l) as [H1 H2]. lia. Qed.
+
+(* one counter state per host object *)
+Lemma host_count l : let s := srun 0 l in (cx_active s = open_conns s /\ 0 <= open_conns s)%Z.
+Proof. intros s. destruct (conserved 0 l (Z.le_refl 0)) as [_ [H1 [H2 _]]]. exact (conj H1 H2). Qed.
